@@ -1,6 +1,6 @@
 """Child process for C15 replays: runs the real CLI and kills itself (os._exit(99)) at the k-th file-system operation.
 Operations are counted like the model's operation log: mkdir, open-for-write, each write(), flush(), close(), replace/rename, remove.
-Files opened for writing are made unbuffered so that every write() reaches the file before the next operation is counted."""
+Files opened for writing get an explicit buffer with the semantics of the model: data reaches the (unbuffered) file at flush() / close()."""
 import builtins
 import datetime
 import os
@@ -19,27 +19,52 @@ def tick(kind):
 
 
 class W:
+    """buffered like a real file object: data reaches the file at flush() / close(); a kill loses what is still buffered"""
+
     def __init__(self, f):
         self.f = f
         self.closed = False
+        self.buf = []
 
     def write(self, b):
         if COUNT[0] == CRASH_AT:
-            if TORN and len(b) > 1:
-                self.f.write(b[:len(b) // 2])
             os._exit(99)
         COUNT[0] += 1
-        return self.f.write(b)
+        self.buf.append(bytes(b))
+        if sum(len(x) for x in self.buf) > 8192:
+            self._out()
+        return len(b)
+
+    def _out(self, upto=None):
+        data = b"".join(self.buf)
+        self.buf = []
+        self.f.write(data if upto is None else data[:upto])
+
+    def _sync(self):
+        if COUNT[0] == CRASH_AT:
+            n = sum(len(x) for x in self.buf)
+            if TORN and n > 1:
+                self._out(n // 2)
+            os._exit(99)
+        COUNT[0] += 1
+        self._out()
 
     def flush(self):
-        tick("flush")
-        self.f.flush()
+        self._sync()
 
     def close(self):
         if not self.closed:
+            self._sync()
             self.closed = True
-            tick("close")
             self.f.close()
+
+    def __del__(self):
+        try:
+            if not self.closed:
+                self._out()
+                self.f.close()
+        except Exception:
+            pass
 
     def __enter__(self):
         return self
